@@ -821,13 +821,13 @@ def p_active_space(ctx: Ctx, scale: int):
     chem = slater.random_eri_chem(__import__("random").Random(14), 3)
     active_space_case(ctx, 3, 0.5, h, chem, [(2, 0, (2, 2, [1, 2]))], "witness:zero-core")
     # always-run, seed-independent section: EVERY ordering of an explicit active list over a contiguous block of 4 orbitals
-    # (n = 4: the whole space; thorough also n = 5 with one core orbital below the block).  A random shuffle hits a particular
+    # (n = 4: the whole space).  A random shuffle hits a particular
     # ordering class (first = min and last = max, middle exchanged; reversed; rotated ...) with probability ~1e-3 per case,
     # which is not a detection; orderings are a dimension of the quantifier ("any explicit active list").
     import itertools
 
     det = __import__("random").Random(1409)
-    for n, lo in ([(4, 0)] if ctx.quick() else [(4, 0), (5, 1)]):
+    for n, lo in [(4, 0)]:
         h = slater.random_symmetric(det, n)
         chem = slater.random_eri_chem(det, n)
         for perm in itertools.permutations(range(lo, lo + 4)):
